@@ -51,6 +51,114 @@ func pluginSrc(fset *token.FileSet, n ast.Node) string {
 	return strings.Join(strings.Fields(b.String()), " ")
 }
 
+
+// ---------------------------------------------------------------- canonical source text
+//
+// Structural readings are source text of short statements.  So that renaming a parameter, receiver or local variable does
+// not change a reading, every identifier that denotes a variable declared INSIDE the function (parameters, receiver,
+// named results, locals, parameters of function literals) is printed as `$<type>` (`$<type>#k` for the k-th further
+// variable of the same type, in declaration order): `registered.defaultConfig.Get` reads
+// `$nameRegistryEntry.defaultConfig.Get`, `c.newPlugin.Call` reads `$*pluginConstructor.newPlugin.Call`.  Fields, package
+// level identifiers and everything else are printed as they are.
+
+func pluginShortType(p *packages.Package, t types.Type) string {
+	switch u := t.(type) {
+	case *types.Signature:
+		return "func"
+	case *types.Slice:
+		return "[]" + pluginShortType(p, u.Elem())
+	case *types.Pointer:
+		return "*" + pluginShortType(p, u.Elem())
+	case *types.Interface:
+		if u.Empty() {
+			return "any"
+		}
+	}
+	if it, ok := t.Underlying().(*types.Interface); ok && it.Empty() {
+		if _, named := t.(*types.Named); !named {
+			return "any"
+		}
+	}
+	return types.TypeString(t, func(q *types.Package) string {
+		if q == p.Types {
+			return ""
+		}
+		return q.Name()
+	})
+}
+
+var pluginLocalCache = map[*ast.FuncDecl]map[types.Object]string{}
+
+func pluginLocals(p *packages.Package, fd *ast.FuncDecl) map[types.Object]string {
+	if m, ok := pluginLocalCache[fd]; ok {
+		return m
+	}
+	var objs []types.Object
+	seen := map[types.Object]bool{}
+	ast.Inspect(fd, func(n ast.Node) bool {
+		id, ok := n.(*ast.Ident)
+		if !ok {
+			return true
+		}
+		obj := p.TypesInfo.Defs[id]
+		v, isVar := obj.(*types.Var)
+		if !isVar || v.IsField() || seen[obj] || id.Name == "_" {
+			return true
+		}
+		seen[obj] = true
+		objs = append(objs, obj)
+		return true
+	})
+	sort.SliceStable(objs, func(i, j int) bool { return objs[i].Pos() < objs[j].Pos() })
+	m := map[types.Object]string{}
+	count := map[string]int{}
+	for _, o := range objs {
+		ty := pluginShortType(p, o.Type())
+		k := count[ty]
+		count[ty]++
+		if k == 0 {
+			m[o] = "$" + ty
+		} else {
+			m[o] = fmt.Sprintf("$%s#%d", ty, k)
+		}
+	}
+	pluginLocalCache[fd] = m
+	return m
+}
+
+// pluginCanon prints n (a node inside fd) with the function's own variables replaced by their canonical names.
+func pluginCanon(p *packages.Package, fd *ast.FuncDecl, n ast.Node) string {
+	if n == nil {
+		return ""
+	}
+	loc := pluginLocals(p, fd)
+	type saved struct {
+		id   *ast.Ident
+		name string
+	}
+	var undo []saved
+	ast.Inspect(n, func(m ast.Node) bool {
+		id, ok := m.(*ast.Ident)
+		if !ok {
+			return true
+		}
+		obj := p.TypesInfo.ObjectOf(id)
+		if obj == nil {
+			return true
+		}
+		if c, ok := loc[obj]; ok {
+			undo = append(undo, saved{id, id.Name})
+			id.Name = c
+		}
+		return true
+	})
+	out := pluginSrc(p.Fset, n)
+	for _, u := range undo {
+		u.id.Name = u.name
+	}
+	return out
+}
+
 // pluginFindDecl finds a function ("name") or method ("Recv.name", pointer or value receiver).
 func pluginFindDecl(p *packages.Package, name string) *ast.FuncDecl {
 	recv := ""
@@ -420,6 +528,7 @@ type pluginSite struct {
 
 type pluginCount struct{ outside, inLit, inLoop int }
 
+// callee is given in canonical form (see pluginCanon)
 func pluginCountCalls(p *packages.Package, fd *ast.FuncDecl, callee string) pluginCount {
 	var c pluginCount
 	var walk func(n ast.Node, lit, loop bool)
@@ -449,7 +558,7 @@ func pluginCountCalls(p *packages.Package, fd *ast.FuncDecl, callee string) plug
 				walk(v.Body, lit, true)
 				return false
 			case *ast.CallExpr:
-				if pluginSrc(p.Fset, v.Fun) == callee {
+				if pluginCanon(p, fd, v.Fun) == callee {
 					if lit {
 						c.inLit++
 					} else {
@@ -528,7 +637,7 @@ func pluginExtra(t *tr) string {
 					x.vars[id.Name] = "(" + rhs + ")"
 				}
 			case *ast.IfStmt:
-				if len(v.Body.List) == 1 && strings.HasPrefix(pluginSrc(p.Fset, v.Body.List[0]), "return newFactoryConstructor(") {
+				if len(v.Body.List) == 1 && strings.HasPrefix(pluginCanon(p, fd, v.Body.List[0]), "return newFactoryConstructor(") {
 					fmt.Fprintf(&b, "/-- regenerated from `newImplConstructor`: the condition under which the constructor is taken as a FACTORY constructor -/\ndef isFactoryConstructor %s : Bool :=\n  %s\n\n", ps, x.expr(v.Cond))
 					found = true
 				}
@@ -563,19 +672,19 @@ func pluginExtra(t *tr) string {
 				return true
 			})
 			if bad {
-				t.fail(s, "Register: conditional expectation / early exit %s", pluginSrc(p.Fset, s))
+				t.fail(s, "Register: conditional expectation / early exit %s", pluginCanon(p, fd, s))
 			}
 		}
 		fmt.Fprintf(&b, "/-- regenerated from `(*Registry).Register`: its own expectations (`alreadyRegistered` = the map lookup's ok) -/\ndef registerExpects (pluginType : Ty) (name : String) (alreadyRegistered : Bool) : List Bool :=\n  [%s]\n\n",
 			strings.Join(conds, ",\n   "))
 		last := fd.Body.List[len(fd.Body.List)-1]
-		fmt.Fprintf(&b, "/-- the statement that stores the entry -/\ndef registerStores : String := %q\n\n", pluginSrc(p.Fset, last))
+		fmt.Fprintf(&b, "/-- the statement that stores the entry -/\ndef registerStores : String := %q\n\n", pluginCanon(p, fd, last))
 	}
 	if fd := pluginFindDecl(p, "newNameRegistryEntry"); fd != nil {
 		var calls []string
 		for _, s := range fd.Body.List {
 			if as, ok := s.(*ast.AssignStmt); ok && len(as.Rhs) == 1 {
-				calls = append(calls, pluginSrc(p.Fset, as.Rhs[0]))
+				calls = append(calls, pluginCanon(p, fd, as.Rhs[0]))
 			}
 		}
 		fmt.Fprintf(&b, "/-- regenerated from `newNameRegistryEntry`: the two checks a registration goes through -/\ndef entryChecks : List String := [%s]\n\n", pluginQuoteList(calls))
